@@ -74,10 +74,20 @@ pub fn shadow_zoo(ctx: &Ctx, rng: &mut impl RngCore, nrand: usize) -> Vec<SE> {
         out.push(s);
         // engineered rescaling: lambda chosen so that X (or T, Y) of the presentation is a value
         // whose Montgomery form has an all-ones / zero limb (borrow and carry paths of the backends)
-        if i % 3 == 0 && m.pt.x != b(0) && m.pt.y != b(0) {
-            let targets = zoo::montgomery_limb_values(&c.f, rng, 1);
-            let t = &targets[(i / 3) % targets.len()];
-            let coord = match (i / 3) % 3 {
+        if m.pt.x != b(0) && m.pt.y != b(0) {
+            let mut targets = zoo::montgomery_limb_values(&c.f, rng, 1);
+            {
+                // ... or is symmetric under a fold of its limbs (a zero test that folds with the wrong operator
+                // takes such a coordinate for zero), as internal form and as canonical integer
+                let rinv = c.f.inv(&((b(1) << 256) % &c.f.p)).unwrap();
+                let sym = zoo::limb_fold_symmetric(&c.f.p);
+                for (k, v) in sym.iter().enumerate() {
+                    if k % 2 == 0 { targets.push(c.f.mul(v, &rinv)); } else { targets.push(v.clone()); }
+                }
+            }
+            // pass 0 over the targets shapes X, pass 1 shapes T, pass 2 shapes Y, then X again
+            let t = &targets[i % targets.len()];
+            let coord = match (i / targets.len()) % 3 {
                 0 => m.pt.x.clone(),
                 1 => c.f.mul(&m.pt.x, &m.pt.y),
                 _ => m.pt.y.clone(),
